@@ -27,7 +27,7 @@ def feature_series(case):
         return None
     if case["fkind"] == "numeric":
         vals = [None if v is None else (float(v) if isinstance(v, str) else v) for v in case["feature"]]
-        s = tc.numeric_series(case["kind"], [None if v is None else (int(v) if case["kind"].startswith("int") else v) for v in vals])
+        s = tc.numeric_series(case["kind"], [None if v is None else (int(v) if case["kind"].startswith(("int", "uint")) else v) for v in vals])
     else:
         s = tc.string_series(case["kind"], case["feature"], case.get("enum"))
     return s.alias(case.get("fname", "f"))  # a feature may be called like the library's own 'model' column
